@@ -210,7 +210,7 @@ def pick_samples(samples, n=10):
 # ---------------------------------------------------------------------------
 
 def write_replay(prop, failure, tier, seed):
-    d = os.path.join(VERIF, 'replays')
+    d = os.environ.get('VERIF_REPLAY_DIR') or os.path.join(VERIF, 'replays')
     os.makedirs(d, exist_ok=True)
     body = {'property': prop, 'tier': tier, 'seed': seed,
             'signature': failure.get('signature'), 'case': failure['case'],
@@ -219,7 +219,7 @@ def write_replay(prop, failure, tier, seed):
     path = os.path.join(d, name)
     with open(path, 'w') as fd:
         json.dump(body, fd, indent=1, ensure_ascii=True, sort_keys=True, default=repr)
-    return os.path.relpath(path, VERIF)
+    return os.path.relpath(path, VERIF) if path.startswith(VERIF + os.sep) else path
 
 
 def validate_evidence(ev):
